@@ -12,10 +12,10 @@ namespace rc = romea::core;
 
 namespace {
 
-enum OpKind {CONSTRUCT = 0, CONSTRUCT_ANCHOR, SET_ANCHOR, RESET, TOENU_GEO, TOENU_WGS84, TOENU_ECEF, TOECEF, TOWGS84, OBSERVE, SET_OWN_ANCHOR, COPY, ASSIGN_ANCHORED, ASSIGN_FRESH, ASSIGN_RESET, ASSIGN_SELF};
+enum OpKind {CONSTRUCT = 0, CONSTRUCT_ANCHOR, SET_ANCHOR, RESET, TOENU_GEO, TOENU_WGS84, TOENU_ECEF, TOECEF, TOWGS84, OBSERVE, SET_OWN_ANCHOR, COPY, ASSIGN_ANCHORED, ASSIGN_FRESH, ASSIGN_RESET, ASSIGN_SELF, TOENU_GEO_AGAIN};
 const char * kOpName[] = {"ENUConverter()", "ENUConverter(anchor)", "setAnchor", "reset", "toENU(geodetic)", "toENU(WGS84)", "toENU(ecef)",
   "toECEF(enu)", "toWGS84(enu)", "isAnchored/getEnuToEcefTransform", "setAnchor(getAnchor())", "continue on a copy",
-  "conv = <converter anchored here>", "conv = ENUConverter()", "conv = <converter anchored here, then reset()>", "conv = conv"};
+  "conv = <converter anchored here>", "conv = ENUConverter()", "conv = <converter anchored here, then reset()>", "conv = conv", "toENU(the geodetic point converted last time)"};
 
 struct Op
 {
@@ -85,6 +85,7 @@ Outcome runHistory(const Plan & p, Ctx & c)
   const Geo byAnchor {0.6L, -1.1L, 120.0L};
   rc::ENUConverter bystander(rc::makeGeodeticCoordinates((double)byAnchor.lat, (double)byAnchor.lon, (double)byAnchor.h));
   const Eigen::Affine3d byT = bystander.getEnuToEcefTransform();
+  Geo lastGeo {0, 0, 0}; bool haveLastGeo = false;   // the absolute point of the last toENU(geodetic)
   std::unique_ptr<rc::ENUConverter> sibling; bool siblingAnchored = false; Geo siblingAnchor {0, 0, 0}; Eigen::Affine3d siblingT;
 
   auto geoOf = [](const Geo & g) {return rc::makeGeodeticCoordinates((double)g.lat, (double)g.lon, (double)g.h);};
@@ -92,15 +93,22 @@ Outcome runHistory(const Plan & p, Ctx & c)
   auto ev = [](V3 v) {return Eigen::Vector3d((double)v.x, (double)v.y, (double)v.z);};
 
   // everything that can be observed of an anchored frame, against the fresh twin and the model
+  // In half of the runs everything below is observed on a COPY of the subject made for the occasion, so that the
+  // observation itself (dozens of conversions per op) does not overwrite whatever the history left inside the subject -
+  // a memo or cache that an op forgot to invalidate would otherwise always be refreshed before the next op looks at it.
+  const bool observeOnCopy = (p.junk & 1) != 0;
   auto checkFrame = [&](const Op & op) -> Outcome {
-      if (conv->isAnchored() != anchored) {
-        return Outcome::fail("anchored-flag-mismatch", fmt("after op #%zu (%s): isAnchored()=%d, the history says %d", no, kOpName[op.kind], conv->isAnchored(), anchored));
+      std::unique_ptr<rc::ENUConverter> probe(observeOnCopy ? new rc::ENUConverter(*conv) : nullptr);
+      rc::ENUConverter * obs = observeOnCopy ? probe.get() : conv.get();
+      if (observeOnCopy) {SIM_PROBE("frame_observed_on_a_copy_of_the_subject");}
+      if (obs->isAnchored() != anchored) {
+        return Outcome::fail("anchored-flag-mismatch", fmt("after op #%zu (%s): isAnchored()=%d, the history says %d", no, kOpName[op.kind], obs->isAnchored(), anchored));
       }
       c.log(anchored);
       if (!anchored) {return Outcome::pass();}
       rc::ENUConverter twin(geoOf(anchor));
       Frame F(E, anchor);
-      const Eigen::Affine3d & T = conv->getEnuToEcefTransform(); const Eigen::Affine3d & Tt = twin.getEnuToEcefTransform();
+      const Eigen::Affine3d & T = obs->getEnuToEcefTransform(); const Eigen::Affine3d & Tt = twin.getEnuToEcefTransform();
       for (int i = 0; i < 3; ++i) {for (int j = 0; j < 4; ++j) {c.logd(T(i, j));}}
       double dlin = (T.linear() - Tt.linear()).norm(), dtr = (T.translation() - Tt.translation()).norm();
       if (!(dlin <= 1e-12) || !(dtr <= 1e-6)) {
@@ -109,7 +117,7 @@ Outcome runHistory(const Plan & p, Ctx & c)
       }
       // the anchor the converter reports is the one the history says (exactly: it is stored, not computed)
       {
-        const rc::GeodeticCoordinates & ga = conv->getAnchor();
+        const rc::GeodeticCoordinates & ga = obs->getAnchor();
         if (ga.latitude != (double)anchor.lat || ga.longitude != (double)anchor.lon || ga.altitude != (double)anchor.h) {
           return Outcome::fail("anchor-mismatch", fmt("after op #%zu (%s): getAnchor() = (%.17g, %.17g, %.17g), the history says (%.17Lg, %.17Lg, %.17Lg)", no, kOpName[op.kind],
                    ga.latitude, ga.longitude, ga.altitude, anchor.lat, anchor.lon, anchor.h));
@@ -136,36 +144,36 @@ Outcome runHistory(const Plan & p, Ctx & c)
       }
       // reference -> origin ; h above -> (0,0,h)
       {
-        Eigen::Vector3d z = (no & 1) ? conv->toENU(conv->getAnchor()) : conv->toENU(geoOf(anchor));
+        Eigen::Vector3d z = (no & 1) ? obs->toENU(obs->getAnchor()) : obs->toENU(geoOf(anchor));
         if (!(z.norm() <= (double)kMillimetre)) {return Outcome::fail("reference-not-at-origin", fmt("after op #%zu: the anchor maps to (%.6g, %.6g, %.6g)", no, z.x(), z.y(), z.z()));}
         double hh = op.u;
-        Eigen::Vector3d a = conv->toENU(rc::makeGeodeticCoordinates((double)anchor.lat, (double)anchor.lon, (double)anchor.h + hh));
+        Eigen::Vector3d a = obs->toENU(rc::makeGeodeticCoordinates((double)anchor.lat, (double)anchor.lon, (double)anchor.h + hh));
         if (!((a - Eigen::Vector3d(0, 0, hh)).norm() <= (double)kMillimetre)) {
           return Outcome::fail("height-above-not-on-z", fmt("after op #%zu: the point %.6g m above the anchor maps to (%.9g, %.9g, %.9g)", no, hh, a.x(), a.y(), a.z()));
         }
       }
       // the op's local point: ENU -> ECEF -> ENU, ENU -> geodetic -> ENU, distances, and agreement with twin and model
       V3 lp {op.e, op.n, op.u};
-      Eigen::Vector3d ecef = conv->toECEF(ev(lp)), ecefT = twin.toECEF(ev(lp));
+      Eigen::Vector3d ecef = obs->toECEF(ev(lp)), ecefT = twin.toECEF(ev(lp));
       V3 em = F.toEcef(lp);
       for (int k = 0; k < 3; ++k) {c.logd(ecef[k]);}
       if (!((ecef - ecefT).norm() <= 1e-6)) {return Outcome::fail("differs-from-fresh-converter", fmt("after op #%zu: toECEF of (%.6g,%.6g,%.6g) differs from a fresh converter's by %.3g m", no, op.e, op.n, op.u, (ecef - ecefT).norm()));}
       if (!(norm(v3(ecef) - em) <= kMillimetre)) {return Outcome::fail("conversion-differs-from-model", fmt("after op #%zu: toECEF of (%.6g,%.6g,%.6g) is %.4Lg m away from the reference geodesy", no, op.e, op.n, op.u, norm(v3(ecef) - em)));}
       // the three-scalar overloads are the same conversions
       {
-        Eigen::Vector3d e3 = conv->toECEF(op.e, op.n, op.u); rc::GeodeticCoordinates g3 = conv->toWGS84(op.e, op.n, op.u), gv = conv->toWGS84(ev(lp));
+        Eigen::Vector3d e3 = obs->toECEF(op.e, op.n, op.u); rc::GeodeticCoordinates g3 = obs->toWGS84(op.e, op.n, op.u), gv = obs->toWGS84(ev(lp));
         if (!((e3 - ecef).norm() <= 1e-9) || !(std::fabs(g3.latitude - gv.latitude) <= 1e-15 && std::fabs(g3.longitude - gv.longitude) <= 1e-15 && std::fabs(g3.altitude - gv.altitude) <= 1e-9)) {
           return Outcome::fail("scalar-overload-differs", fmt("after op #%zu: toECEF/toWGS84(x, y, z) differ from the vector overloads for (%.6g,%.6g,%.6g)", no, op.e, op.n, op.u));
         }
       }
-      Eigen::Vector3d back = conv->toENU(ecef);
+      Eigen::Vector3d back = obs->toENU(ecef);
       if (!((back - ev(lp)).norm() <= (double)kMillimetre)) {return Outcome::fail("round-trip-enu-ecef", fmt("after op #%zu: toENU(toECEF(p)) is %.4g m away from p = (%.6g,%.6g,%.6g)", no, (back - ev(lp)).norm(), op.e, op.n, op.u));}
-      rc::GeodeticCoordinates g = conv->toWGS84(ev(lp)); rc::GeodeticCoordinates gt = twin.toWGS84(ev(lp));
+      rc::GeodeticCoordinates g = obs->toWGS84(ev(lp)); rc::GeodeticCoordinates gt = twin.toWGS84(ev(lp));
       c.logd(g.latitude); c.logd(g.longitude); c.logd(g.altitude);
       if (!(std::fabs(g.latitude - gt.latitude) <= 1e-13 && std::fabs(g.altitude - gt.altitude) <= 1e-6 && std::fabs(std::remainder(g.longitude - gt.longitude, 6.283185307179586)) <= 1e-13)) {
         return Outcome::fail("differs-from-fresh-converter", fmt("after op #%zu: toWGS84 of (%.6g,%.6g,%.6g) differs from a fresh converter's", no, op.e, op.n, op.u));
       }
-      Eigen::Vector3d back2 = conv->toENU(g);
+      Eigen::Vector3d back2 = obs->toENU(g);
       if (!((back2 - ev(lp)).norm() <= (double)kMillimetre)) {
         return Outcome::fail("round-trip-enu-geodetic", fmt("after op #%zu: toENU(toWGS84(p)) is %.4g m away from p = (%.6g,%.6g,%.6g) (anchor lat %.9Lg lon %.12Lg h %.6Lg; "
                  "geodetic lat %.12g lon %.15g h %.6g)", no, (back2 - ev(lp)).norm(), op.e, op.n, op.u, anchor.lat, anchor.lon, anchor.h, g.latitude, g.longitude, g.altitude));
@@ -177,12 +185,12 @@ Outcome runHistory(const Plan & p, Ctx & c)
       }
       // isometry: distance to a second local point is preserved by the frame transform
       V3 lq {-0.37 * op.n + 11.0, 0.61 * op.e - 7.0, 0.5 * op.u};
-      Eigen::Vector3d eq = conv->toECEF(ev(lq));
+      Eigen::Vector3d eq = obs->toECEF(ev(lq));
       L dLocal = norm(lq - lp), dEcef = (L)(eq - ecef).norm();
       // the same distance from two results that are alive at the same time and were never copied
       {
-        L dInline = (L)(conv->toECEF(ev(lq)) - conv->toECEF(ev(lp))).norm();
-        const auto & keep = conv->toECEF(ev(lp)); Eigen::Vector3d before = keep; (void)conv->toECEF(ev(lq)); (void)conv->toWGS84(ev(lq));
+        L dInline = (L)(obs->toECEF(ev(lq)) - obs->toECEF(ev(lp))).norm();
+        const auto & keep = obs->toECEF(ev(lp)); Eigen::Vector3d before = keep; (void)obs->toECEF(ev(lq)); (void)obs->toWGS84(ev(lq));
         if (!(fabsl(dInline - dLocal) <= 1e-9L * (dLocal + 1)) || !(keep == before)) {
           return Outcome::fail("distance-not-preserved", fmt("after op #%zu: |toECEF(q) - toECEF(p)| evaluated in one expression is %.12Lg m for a local distance of %.12Lg m "
                    "(or a kept result changed under a later call): conversion results alias each other", no, dInline, dLocal));
@@ -191,8 +199,8 @@ Outcome runHistory(const Plan & p, Ctx & c)
       // two points 2 mm apart converted one right after the other stay 2 mm apart (1 mm clause, consecutive calls)
       {
         Eigen::Vector3d a = ev(lp), b = ev(lp) + Eigen::Vector3d(0.002, 0, 0);
-        rc::GeodeticCoordinates ga = conv->toWGS84(a), gb = conv->toWGS84(b);
-        Eigen::Vector3d ra = conv->toENU(ga), rb = conv->toENU(gb);
+        rc::GeodeticCoordinates ga = obs->toWGS84(a), gb = obs->toWGS84(b);
+        Eigen::Vector3d ra = obs->toENU(ga), rb = obs->toENU(gb);
         if (!((ra - a).norm() <= (double)kMillimetre) || !((rb - b).norm() <= (double)kMillimetre)) {
           return Outcome::fail("round-trip-enu-geodetic", fmt("after op #%zu: two local points 2 mm apart converted to geodetic one right after the other come back %.4g m and %.4g m from where they were",
                    no, (ra - a).norm(), (rb - b).norm()));
@@ -211,14 +219,15 @@ Outcome runHistory(const Plan & p, Ctx & c)
     ++no; ++c.steps;
     Op op = raw;
     // ops whose precondition (anchored) is false are interpreted as a plain observation
-    if (!anchored && (op.kind == TOENU_ECEF || op.kind == TOECEF || op.kind == TOWGS84 || op.kind == SET_OWN_ANCHOR)) {op.kind = OBSERVE; SIM_COUNT("op.skipped_needs_anchor");}
+    if (!anchored && (op.kind == TOENU_ECEF || op.kind == TOECEF || op.kind == TOWGS84 || op.kind == SET_OWN_ANCHOR || op.kind == TOENU_GEO_AGAIN)) {op.kind = OBSERVE; SIM_COUNT("op.skipped_needs_anchor");}
     Geo ga {op.lat, op.lon, op.alt};
     switch (op.kind) {
       case CONSTRUCT: sibling.reset(); conv.reset(new rc::ENUConverter); anchored = false; everReset = false; reanchored = false; SIM_COUNT("op.construct"); break;
       case CONSTRUCT_ANCHOR: sibling.reset(); conv.reset(new rc::ENUConverter(geoOf(ga))); anchored = true; anchor = ga; everReset = false; reanchored = false; SIM_COUNT("op.construct_with_anchor"); break;
       case SET_ANCHOR:
         if (anchored) {SIM_PROBE("set_anchor_replaces_existing_frame");}
-        conv->setAnchor(geoOf(ga)); if (everReset) {reanchored = true;}
+        if (no & 1) {const rc::GeodeticCoordinates named = geoOf(ga); conv->setAnchor(named);} else {conv->setAnchor(geoOf(ga));}   // named object / temporary
+        if (everReset) {reanchored = true;}
         anchored = true; anchor = ga; SIM_COUNT("op.setAnchor"); break;
       case COPY: {
           // the (implicit) copy constructor carries flag, anchor and frame over; the history continues on the copy,
@@ -263,15 +272,29 @@ Outcome runHistory(const Plan & p, Ctx & c)
           if (!anchored) {
             // auto-anchor: the first geodetic point converted becomes the anchor and maps to the origin
             if (everReset) {SIM_PROBE("auto_anchor_after_reset"); reanchored = true;} else {SIM_PROBE("auto_anchor_of_fresh_converter");}
-            Eigen::Vector3d r = conv->toENU(geoOf(ga));
+            Eigen::Vector3d r = conv->toENU(geoOf(ga)); lastGeo = ga; haveLastGeo = true;
             anchored = true; anchor = ga;
             if (!(r.norm() <= (double)kMillimetre)) {return Outcome::fail("auto-anchor-not-at-origin", fmt("op #%zu: first geodetic point converted by an un-anchored converter maps to (%.6g,%.6g,%.6g)", no, r.x(), r.y(), r.z()));}
           } else {
             Frame F(E, anchor); Geo g = E.geo(F.toEcef({op.e, op.n, op.u}));
-            Eigen::Vector3d r = conv->toENU(geoOf(g));
+            Eigen::Vector3d r = conv->toENU(geoOf(g)); lastGeo = g; haveLastGeo = true;
             if (!(norm(v3(r) - V3 {op.e, op.n, op.u}) <= kMillimetre)) {
               return Outcome::fail("conversion-differs-from-model", fmt("op #%zu: toENU(geodetic) of the point at local (%.6g,%.6g,%.6g) returned (%.9g,%.9g,%.9g)", no, op.e, op.n, op.u, r.x(), r.y(), r.z()));
             }
+          }
+          break;
+        }
+      case TOENU_GEO_AGAIN: {
+          // the very same absolute point as the previous geodetic conversion, whatever happened to the frame in between:
+          // the answer is that point in the CURRENT frame (it may be far outside the 100 km domain, so the comparison
+          // is with a fresh converter on the current anchor, not with the millimetre clauses)
+          if (!haveLastGeo) {break;}
+          std::unique_ptr<rc::ENUConverter> fresh(new rc::ENUConverter(geoOf(anchor)));
+          Eigen::Vector3d r = conv->toENU(geoOf(lastGeo)), rt = fresh->toENU(geoOf(lastGeo));
+          SIM_PROBE("same_geodetic_point_converted_again");
+          if (!((r - rt).norm() <= 1e-6 + 1e-12 * rt.norm())) {
+            return Outcome::fail("differs-from-fresh-converter", fmt("op #%zu: toENU of the geodetic point converted last time returns (%.9g,%.9g,%.9g), a fresh converter on the current anchor gives (%.9g,%.9g,%.9g)",
+                     no, r.x(), r.y(), r.z(), rt.x(), rt.y(), rt.z()));
           }
           break;
         }
@@ -393,6 +416,7 @@ struct PropC02
       if (r.chance(pReset)) {o.kind = RESET;} else {
         static const int kinds[] = {CONSTRUCT, CONSTRUCT_ANCHOR, SET_ANCHOR, SET_ANCHOR, TOENU_GEO, TOENU_GEO, TOENU_WGS84, TOENU_WGS84, TOENU_ECEF, TOECEF, TOWGS84, TOWGS84, OBSERVE, SET_OWN_ANCHOR, COPY};
         o.kind = r.pick(kinds);
+        if (r.chance(0.06)) {o.kind = TOENU_GEO_AGAIN;}
         if (r.chance(0.06)) {o.kind = r.pick({(int)ASSIGN_ANCHORED, (int)ASSIGN_FRESH, (int)ASSIGN_RESET, (int)ASSIGN_SELF});}
       }
       p.ops.push_back(o);
